@@ -291,6 +291,19 @@ Definition nest_2d (J : (T -> res T) -> T -> T -> res T) (f : T -> T -> T) (x1 x
 Definition nest_3d (J : (T -> res T) -> T -> T -> res T) (f : T -> T -> T -> T) (x1 x2 y1 y2 z1 z2 : T) : res T :=
   J (fun x => J (fun y => J (fun z => Ok (f x y z)) z1 z2) y1 y2) x1 x2.
 
+(** Nesting to any depth.  A user's integrand may itself call Integrate_2D/Integrate_3D (a normalisation computed by an integral inside an
+    integrand, whose own integrand does the same again): the lambdas above are then stacked, 3D in 3D in 3D has nine levels of Integrate active at
+    once.  Sections 1.1-1.3 and 2.1 keep no object that outlives a call and no count of the calls that are active (function_values of
+    Integrate_Gauss_Legendre(func, rule) and the table of roots and weights are locals of each activation; the recursion of the adaptive
+    Simpson rule carries its depth and tolerance in its arguments), so level k of a stack is the same function J of its own integrand and limits
+    whatever k is: [nest_nd] is [nest_2d]/[nest_3d] continued to a list of limit pairs, outermost first; [pt] collects the variables of the
+    enclosing levels in order. *)
+Fixpoint nest_nd (J : (T -> res T) -> T -> T -> res T) (lims : list (T * T)) (f : list T -> res T) (pt : list T) : res T :=
+  match lims with
+  | [] => f pt
+  | (a, b) :: rest => J (fun x => nest_nd J rest f (pt ++ [x])) a b
+  end.
+
 (** Monte-Carlo branch: region = {x1, y1, x2, y2} resp. {x1, y1, z1, x2, y2, z2},
     ncalls = method_parameter == 0 ? 30000 : method_parameter, integrand func(args[0], args[1] (, args[2])). *)
 Variable MC : method -> (list T -> T) -> list T -> Z -> res T.
